@@ -246,11 +246,27 @@ def c_history(ctx, case):
     ]
     twins = has_twins(*pool)
 
+    costly = {}
+
+    def too_costly(ei):
+        """a power tower the reference refuses (> 2M-bit result): Python itself would not
+        finish (-2) ** (4 ** 343); nothing to compare"""
+        if ei not in costly:
+            try:
+                refsem.outcome(lambda: refsem.ev(pool[ei], env))
+                costly[ei] = False
+            except refsem.TooCostly:
+                costly[ei] = True
+        return costly[ei]
+
     def replay(name, mk, fresh, takes_args, w):
         """(index of first differing call or None, got, want, memo) for one pair."""
         memo = mk(w)
         for i, (ei, a, kw) in enumerate(hist):
             e = pool[ei]
+            if "evaluat" in name and too_costly(ei):
+                ctx.count("evaluation_too_costly_skipped")
+                continue
             if not takes_args:
                 a, kw = (), {}
             if name in ("combine+args", "collector+args"):
